@@ -490,6 +490,40 @@ def r4_direction(ck, rule="C04-R4"):
     ck.floor(rule, "real (aborting) rollback call sites", n, 1)
 
 
+def r4_rollback_line(ck, rule="C04-R4"):
+    """(e) the position an undo starts from (`rollback_line`) is where the hunk's lines were actually put: the value stored through the
+    `ref mut rollback_line` binding of the Applied report equals the start of the range that very splice replaces."""
+    am = ck.anchor("FilePatch::<'a, &'a [u8]>::apply_modify")
+    if am is None:
+        return
+    spl = [(bb, t) for bb, t in am.calls() if (callee_of(t).get("rpath") or "").endswith("Vec::<T, A>::splice") and not am.blocks[bb]["cleanup"]]
+    stores = []
+    for bb, idx, s in am.stmts():
+        if s["k"] != "assign" or s["lhs"].get("p") != ["deref"]:
+            continue
+        full = [dd for dd in df.defs_of(am).all(s["lhs"]["l"]) if dd[0] in ("stmt", "call")]
+        one = full[0] if len(full) == 1 else None
+        if one and one[0] == "stmt" and one[3]["rv"]["k"] == "ref" and one[3]["rv"].get("mut"):
+            names = [p_.get("name") for p_ in one[3]["rv"]["pl"].get("p", []) if isinstance(p_, dict)]
+            if "rollback_line" in names:
+                stores.append((bb, s))
+    if not ck.require(len(spl) == 1 and len(stores) == 1, rule, "apply_modify records one rollback line per splice",
+                      "%d splices on the content, %d stores into Applied.rollback_line" % (len(spl), len(stores)), am.where()):
+        return
+    (sbb, st), (rbb, rs) = spl[0], stores[0]
+    rng = df.operand_expr(am, st["args"][1])
+    start = rng[3][0] if isinstance(rng, tuple) and rng[0] == "agg" and len(rng) > 3 and rng[3] else None
+    while isinstance(start, tuple) and start and start[0] == "cast":
+        start = start[1]
+    val = df.rvalue_expr(am, rs["rv"])
+    while isinstance(val, tuple) and val and val[0] == "cast":
+        val = val[1]
+    same_iter = cfg.innermost_loop_of(am, sbb) == cfg.innermost_loop_of(am, rbb)
+    ck.require(start is not None and val == start and same_iter, rule, "rollback_line = start of the range the hunk was spliced into",
+               "Applied.rollback_line is set to %s while the lines go to %s" % (df.show(val, 100), df.show(start, 100) if start else "?"), am.where(rs),
+               ok_detail=df.show(val, 120))
+
+
 def r5_context_stays_intact(ck, rule="C04-R5"):
     """Undoing a hunk re-matches its whole new side, context included, in the fully patched file.  That can only succeed for every
     stack of hunks if no later hunk of the file patch may change a line inside this hunk's matched range: the line handed on as
@@ -529,4 +563,5 @@ def run(ck):
     r3b_pop_after_rollback(ck)
     r4_replay(ck)
     r4_direction(ck)
+    r4_rollback_line(ck)
     r5_context_stays_intact(ck)
